@@ -163,7 +163,7 @@ pub fn run_c04(ctx: &Ctx, rep: &mut Report) {
     }
     // terminal positions met in play: sparse positions and mating nets reach mate/stalemate quickly
     let corpus = corpus_positions();
-    let n = ctx.budget(1500, 40_000, 2, 300);
+    let n = ctx.budget(8000, 80_000, 2, 300);
     ctx.cases(rep, "play", n, |gid, rng, rep| {
         let start = match rng.below(4) {
             0 => synth::scenario_retry(rng, 11).unwrap_or_else(|| Start::plain(RPos::startpos(), "corpus")),
@@ -521,7 +521,7 @@ pub fn run_c07(ctx: &Ctx, rep: &mut Report) {
         }
     });
     // text stream
-    let n = ctx.budget(2500, 60_000, 2, 1500);
+    let n = ctx.budget(5000, 80_000, 2, 1500);
     ctx.cases(rep, "text", n, |gid, rng, rep| {
         // a real position to start from
         let base = match rng.below(3) {
@@ -581,7 +581,7 @@ pub fn run_c07(ctx: &Ctx, rep: &mut Report) {
         }
     });
     // builder stream: arbitrary states, crowded boards
-    let n = ctx.budget(1500, 40_000, 1, 1500);
+    let n = ctx.budget(3000, 50_000, 1, 1500);
     ctx.cases(rep, "builder", n, |gid, rng, rep| {
         let per = if miri { 4 } else { 40 };
         for i in 0..per {
